@@ -8,16 +8,18 @@ import Driver.C01
 -/
 open TV TV.Driver
 
-/-- Model variants tried in order: the code as it stands first, then each repair. -/
+/-- Model variants.  The first one is the code as it stands (all three committed repairs); a case
+    must replay under it for K=ok.  The others are the code before each repair: when only one of
+    those replays, the detail says which repaired defect is back. -/
 def variants : List (String × Cfg × Bool × Bool) :=
-  [ ("faithful", Cfg.faithful, false, false),
+  [ ("fixed:all", Cfg.fixed, true, true),
+    ("faithful", Cfg.faithful, false, false),
     ("fixed:rand", Cfg.fixed, false, false),
     ("fixed:leak", Cfg.faithful, true, false),
     ("fixed:fin", Cfg.faithful, false, true),
     ("fixed:rand+leak", Cfg.fixed, true, false),
     ("fixed:rand+fin", Cfg.fixed, false, true),
-    ("fixed:leak+fin", Cfg.faithful, true, true),
-    ("fixed:all", Cfg.fixed, true, true) ]
+    ("fixed:leak+fin", Cfg.faithful, true, true) ]
 
 def splitCases (lines : List String) : List (List String) :=
   let (cur, acc) := lines.foldl (fun (st : List String × List (List String)) l =>
@@ -37,15 +39,18 @@ def runCase (prop : String) (lines : List String) : String × Bool × Bool :=
     | (name, link, leak, fin) :: rest =>
       let st := replay lines link leak fin
       if st.bad.isNone then some (name, st) else firstOk rest
-  let (kOk, vname, st) := match firstOk variants with
-    | some (name, st) => (true, name, st)
-    | none => (false, "faithful", replay lines Cfg.faithful false false)
+  let cur := replay lines Cfg.fixed true true
+  let (kOk, vname, st) :=
+    if cur.bad.isNone then (true, "fixed:all", cur) else
+    match firstOk (variants.drop 1) with
+    | some (name, _) => (false, s!"regressed:{name}", cur)
+    | none => (false, "none", cur)
   let (lineNo, kdetail) := match st.bad with | some (ln, d) => (ln, d) | none => (0, "")
   let o := oracle prop lines st.w.cov
   let cov := ",".intercalate (st.w.cov.reverse ++ o.cov)
   let detail := if !o.ok then o.detail else kdetail
   let oline := if o.ok then 0 else o.line
-  (s!"CASE {n} K={if kOk then "ok" else "mismatch"} O={if o.ok then "ok" else "fail"} variant={if kOk then vname else "none"} pattern={o.pattern} line={if kOk then oline else lineNo} cov={if cov.isEmpty then "-" else cov} detail={detail}",
+  (s!"CASE {n} K={if kOk then "ok" else "mismatch"} O={if o.ok then "ok" else "fail"} variant={vname} pattern={o.pattern} line={if kOk then oline else lineNo} cov={if cov.isEmpty then "-" else cov} detail={detail}",
    kOk, o.ok)
 
 def main (args : List String) : IO UInt32 := do
